@@ -134,7 +134,8 @@ def _gen_probe_step(rng, sim, named):
     v = sim.version
     segs = [x.pos[0] for x in sim.recs if x.rt == "S"]
     nonsegs = [n for n, r in named if r.rt != "S"]
-    undefined = sorted({m for x in sim.recs for m, role in T.mentions(x) if m not in sim.names()})
+    undefined = sorted({m for x in sim.recs for m, role in T.mentions(x)
+                        if m and m not in sim.names() and S.fm("id2", m)})
     fresh = [f for f in FRESH if f not in sim.names()]
     pool = segs * 2 + fresh[:2] + undefined
     if not nonsegs or not pool:
